@@ -69,6 +69,7 @@ func init() {
 			checkC02Exotic(c, budget(c.Tier, 100, 2000))
 			checkC02Shadow(c, budget(c.Tier, 150, 5000))
 			checkRenamed(c, budget(c.Tier, 100, 3000), "C02")
+			checkC02DigitFlag(c, budget(c.Tier, 60, 2000))
 			pp := defaultProfile
 			pp.Utf = 0.4
 			pp.BadDecl = 0.01
@@ -93,6 +94,7 @@ func init() {
 			checkC11EnvList(c, budget(c.Tier, 800, 30000))
 			checkC11ChoicesChanged(c, budget(c.Tier, 300, 10000))
 			checkC11DefaultChanged(c, budget(c.Tier, 150, 5000))
+			checkC11EmptyAttached(c, budget(c.Tier, 150, 5000))
 			checkC11DeepUnmarshaler(c, budget(c.Tier, 200, 4000))
 		}}
 }
@@ -255,6 +257,7 @@ func init() {
 			checkC10Levels(c, budget(c.Tier, 600, 30000))
 			checkC10SliceUnmarshaler(c, budget(c.Tier, 150, 5000))
 			checkC10AfterHelp(c, budget(c.Tier, 100, 3000))
+			checkC10OuterWord(c, budget(c.Tier, 100, 3000))
 		}}
 	}
 }
